@@ -26,10 +26,20 @@ var tplRef string
 //go:embed templates/rn.go.txt
 var tplRn string
 
+// scratchGoCache: build cache for the scratch modules of one check run. Every batch has unique package
+// contents, so a shared cache would grow by several MB per batch (tens of GB over a day of runs); the
+// scratch cache lives in the scratch directory and disappears with it. Filling it with the standard
+// library packages the batches need costs about 5 s once per run. The drivers are built with the
+// user's normal cache (their content is stable between runs).
+var scratchGoCache string
+
 // env of every go invocation
 func goEnv() []string {
 	env := os.Environ()
 	env = append(env, "GOFLAGS=-mod=mod", "GOPROXY=off", "GOSUMDB=off", "GOTOOLCHAIN=local")
+	if scratchGoCache != "" {
+		env = append(env, "GOCACHE="+scratchGoCache)
+	}
 	return env
 }
 
